@@ -57,5 +57,20 @@ CHECKS["C10"] = {
             "support header are examined by C16's check. F4 was a genuine defect, repaired by a fix: commit; the check reports it again on the unrepaired code.",
 }
 
+CHECKS["C06"] = {
+    "text": "Proof that the boolean checker cfg_ok (jump targets exist; every block reachable from the entry ends in a jump or return; reachable returns all "
+            "void or all non-void; every non-parameter local is assigned on every path before it is read) is SOUND for the all-paths statement of the "
+            "property (C06_checker_sound, C06_returns: induction over execution paths against verified reachable/must-assigned candidates). The checker is then "
+            "evaluated inside Coq on the IR of every accepted program of the run -- per-program translation validation of the real output, since the same run "
+            "establishes token-for-token equality of the model's IR and tir::build's IR (and where they differ the checker runs on the implementation's IR). "
+            "Programs: every switch skeleton with <= 2 (thorough 3) clauses x default position x clause bodies, if/else x tails, plus type-directed generated "
+            "bindings and callbacks. The general theorem over ALL programs (C06_builder_ok_full) is stated but not proved. Two genuine defects found by this "
+            "check were repaired by fix: commits (F2/F14, F18).",
+    "technique": "Coq soundness proof of a CFG/dataflow checker + per-program evaluation of the verified checker on the real IR (translation validation) + differential execution model/code",
+    "design_ref": "5 C06",
+    "note": "Trusted: Coq kernel, vm_compute; harness `vh tir` and its JSON dump, vlib/tirtok.py; the synthetic environment E0. Not covered by a theorem: that EVERY "
+            "program passes the checker (only the programs of each run are validated). The printed C++ (uigen/binding.rs) is tied to the IR by C16/C01's checks.",
+}
+
 NOT_YET = {
 }
